@@ -38,8 +38,12 @@ try:
     for c in checks:
       for s in a.seeds.split(','):
         t0 = time.time()
-        p = sh('cd /verif && ./verif %s --tier %s --seed %s' % (c, a.tier, s), env=env, timeout=7200)
-        line = [l for l in p.stdout.split('\n') if l.startswith(('VIOLATION', 'HARNESS-ERROR'))]
+        logf = '/var/tmp/seeded_evalrun_%s_%s_%s.log' % (name, c, s)
+        # output to a file, not a pipe: ASan children can leave orphan symbolizer processes holding inherited pipes open
+        p = subprocess.run('cd /verif && ./verif %s --tier %s --seed %s > %s 2>&1' % (c, a.tier, s, logf), shell=True, env=env,
+                           timeout=7200, stdin=subprocess.DEVNULL)
+        out = open(logf, errors='replace').read()
+        line = [l for l in out.split('\n') if l.startswith(('VIOLATION', 'HARNESS-ERROR'))]
         res['checks']['%s/seed%s' % (c, s)] = dict(rc=p.returncode, first=(line[0][:160] if line else ''), wall=round(time.time() - t0))
 finally:
   sh('git -C /repo worktree remove --force %s; rm -rf %s; git -C /repo worktree prune' % (wt, wt))
